@@ -53,6 +53,8 @@ def _expr_strategy(allow_cn):
     def site(inner):
         forms = [
             inner.map(lambda a: "{REC}(%s)" % a),
+            st.just("{REC}(v, k=(v := @P(8)))"),  # a bare local read before a later argument rebinds it
+            st.just("{REC}(v)"),
             inner.map(lambda a: "{REC}(%s, k=@P(7))" % a),
             inner.map(lambda a: "{REC}(*[%s])" % a),
             inner.map(lambda a: "{REC}(%s, **{'k': @P(9)})" % a),
@@ -199,20 +201,20 @@ def render(spec, real):
     # the method under test
     sig = "x: Tok"
     if spec["defaults"]:
-        sig += ", d=DEF_D, *, kd=DEF_KD"
-    body = [f"{ind}acc = []"]
+        sig += ", d=DEF_D, lam=lambda q: ('lam', q), *, kd=DEF_KD, klam=lambda q: ('klam', q)"
+    body = [f"{ind}acc = []", f"{ind}v = 1"]
     for kind, e in spec["stmts"]:
         e2 = subst(number(e, nxt)).replace("{CN}", names["CN"])
         body += render_stmt(kind, e2, ind)
     ret = "acc"
     if spec["defaults"]:
-        ret += ", d, kd"
+        ret += ", d, kd, lam(1), klam(2)"
     if spec["closure"]:
         ret += ", ACV, zCV"
     body.append(f"{ind}return ({ret},)")
     emit_def([], sig, body)
     if spec["hi"]:
-        body = [f"{ind}acc = []"]
+        body = [f"{ind}acc = []", f"{ind}v = 1"]
         for kind, e in spec["hi"]:
             e2 = subst(number(e, nxt))
             if real:
@@ -223,7 +225,7 @@ def render(spec, real):
         body.append(f"{ind}return ('hi', acc)")
         emit_def(["@ovld(priority=1)"], "x: Tok", body)
     if spec["gen"]:
-        body = []
+        body = [f"{ind}v = 1"]
         for kind, e in spec["gen"]:
             e2 = subst(number(e, nxt)).replace("{CN}", names["CN"])
             body += render_stmt(kind, e2, ind)
